@@ -102,7 +102,7 @@ Result execute(const Plan &p) {
         Violation v; v.oracle = oracle; v.add("component", "amg"); v.add("clause", clause); v.add("coarsening", coarsening_names[coarsening]); v.add("relax", relax_names[relax]); v.add("values", block ? "block2x2" : "scalar");
         v.add("smallest_level", smallest_level <= 2 ? "tiny" : "ok"); v.add("over_interp", coarsening == 1 ? (p.get("over_interp_one") ? "1" : "default") : "n/a"); v.add("ncycle", p.get("ncycle")); v.detail = detail; return v; };
     Eigen::MatrixXd B(n, n), B2(n, n); size_t nlevels = 0; bool ok = false; std::string exc;
-    std::vector<double> lin_err(2, 0.0); bool scaled_equal = true; long scaled_bad = -1;
+    std::vector<double> lin_err(2, 0.0); bool scaled_equal = true; long scaled_bad = -1; double pre_cycles_err = 0; bool pre_cycles_checked = false;
     sim::RunStatus st = world(nt, p.sched, [&]() {
         try {
             if (block) { if (relax == 5) ok = block_extract<amgcl::relaxation::damped_jacobi>(A, p, B, B2, nlevels, res); else ok = block_extract<amgcl::relaxation::spai0>(A, p, B, B2, nlevels, res); return; }
@@ -134,6 +134,16 @@ Result execute(const Plan &p) {
                 double sc = 1e-300; for (long i = 0; i < n; ++i) sc = std::max(sc, std::fabs(al * xf[i]) + std::fabs(be * xg[i]));
                 for (long i = 0; i < n; ++i) lin_err[t] = std::max(lin_err[t], std::fabs(xh[i] - (al * xf[i] + be * xg[i])) / sc);
             }
+            // apply() = pre_cycles cycles from x = 0: with two of them B2 = 2 B1 - B1 A B1, B1 being the operator of one cycle
+            if (p.get("pre_cycles") == 2 && n <= 80) {
+                boost::property_tree::ptree p1 = params(p); p1.put("pre_cycles", 1);
+                AMG amg1(Ac.tie(), p1); Eigen::MatrixXd B1(n, n), D = Eigen::MatrixXd::Zero(n, n);
+                for (long j = 0; j < n; ++j) { std::fill(e.begin(), e.end(), 0.0); e[j] = 1; amg1.apply(e, x); for (long i = 0; i < n; ++i) B1(i, j) = x[i]; }
+                for (long i = 0; i < n; ++i) for (ptrdiff_t j = A.ptr[i]; j < A.ptr[i+1]; ++j) D(i, A.col[j]) += A.val[j];
+                if (B1.allFinite() && B.allFinite()) { Eigen::MatrixXd W = 2 * B1 - B1 * D * B1; double dv = (W - B).cwiseAbs().maxCoeff(), sc = std::max(B.cwiseAbs().maxCoeff(), (B1 * D * B1).cwiseAbs().maxCoeff());
+                    // (emin's critical accumulation makes two constructions differ in rounding at nt > 1)
+                    if (!(dv <= 1e-9 * sc) && (coarsening != 3 || nt == 1)) pre_cycles_err = dv / sc; pre_cycles_checked = true; }
+            }
             // B(2^k A) = 2^-k B(A), exactly
             // (emin accumulates in an unordered critical section: two constructions only agree bitwise on one thread)
             if (relax != 4 && (coarsening != 3 || nt == 1)) {
@@ -158,6 +168,7 @@ Result execute(const Plan &p) {
         double bn = B.cwiseAbs().maxCoeff();
         // 2. linear
         for (int t = 0; t < 2; ++t) if (!(lin_err[t] <= 1e-10)) res.fail(sig("linear", "B(af+bg)=aBf+bBg", fmt("relative deviation %.3g", lin_err[t])));
+        if (pre_cycles_checked) { res.counts["pre_cycles_identity_checked"]++; if (pre_cycles_err > 0) res.fail(sig("pre-cycles", "B2=2B1-B1*A*B1", fmt("apply() with pre_cycles=2 differs from two cycles of the one-cycle operator by %.3g (relative)", pre_cycles_err))); }
         if (!scaled_equal) res.fail(sig("power-of-two-scaling", "B(2^k A)=2^-k B(A)", fmt("column %ld is not scaled exactly by 2^%ld", scaled_bad, -p.get("scale_pow"))));
         bool spd_case = symmetric_smoother(relax);
         if (spd_case && n <= 200) {
